@@ -45,7 +45,9 @@ ASSUMPTIONS = ["n >= 2 break candidates (with a single candidate the implementat
                "matrix values are dyadic, so every sum compared is exact",
                "the MBR-based simplification modes 4-6 are not driven (their cost functions do not return on collinear fixes "
                "and are unrelated to the dynamic programme)",
-               "delegation is observed by wrapping tracklib.algo.segmentation.optimalPartition inside the harness process"]
+               "delegation is observed by wrapping tracklib.algo.segmentation.optimalPartition inside the harness process",
+               "a second call on the same ndarray object must answer for the matrix the caller built (the values it held "
+               "before the first call); whether the first call may modify its argument is not judged by itself"]
 N_VARIANTS = 4
 MINI, MAXI = 0, 1
 DIRNAME = {MINI: "minimize", MAXI: "maximize"}
@@ -60,6 +62,8 @@ OBLIGATIONS = {
     "seam_simplify_free": "a delegated call of simplify(MODE_SIMPLIFY_FREE) was recorded at the seam",
     "seam_findStopsGlobal": "a delegated call of findStopsGlobal with a non-zero reward matrix was recorded at the seam",
     "caller_direction_matters": "a caller case in which minimum and maximum of the recorded matrix differ",
+    "matrix_object_reused": "the same ndarray object was handed to optimalPartition a second time (after a call in the other "
+                            "direction, and after a call in the same direction)",
     "negative_entry_on_optimum": "the optimal break list uses a negative entry (a reward inside a cost matrix)",
 }
 
@@ -266,6 +270,22 @@ def check_partition(variant, n, upper, direction, ctx):
     ok, nt = judge(ctx, "optimalPartition", case, r, M, n, direction)
     if ok:
         ctx.outcome(("partition", n, direction, len(r)))
+    # ---- the same question asked again on a matrix object that has already been through the dynamic programme
+    # (once in the other direction, once in the same one): the answer is a function of the matrix the caller built
+    for first in (1 - direction, direction):
+        A = np.array(M, dtype=float)
+        st1, _ = guard(_ORIG_PARTITION, A, first, False)
+        if st1 != "ok":
+            continue                     # reported by the case of that direction
+        st2, r2 = guard(_ORIG_PARTITION, A, direction, False)
+        ctx.oblige("matrix_object_reused")
+        site = "optimalPartition/matrix-object-already-used-once"
+        if st2 != "ok":
+            ctx.violation("%s/%s" % (site, "does-not-return" if st2 == "hang" else "raises"), case, r2)
+            return nt
+        ok2, _ = judge(ctx, site, case, r2, M, n, direction, oblige=False)
+        if not ok2:
+            return nt
     return nt
 
 
